@@ -608,11 +608,11 @@ def run(run, tier, replay=None):
     pterms = pterms + mterms
     run.extra["body_plans_compared"] = len(pterms) - len(mterms)
     bad = set(run_cases(hdr, terms, shard=250))
-    run.corr = {"cases": len(terms) + len(pterms), "mismatches": len(bad) + len(pbad), "what": "body_from_data media-type decisions == Parse.body_plan; generated _get_kwargs(**args) (method, url, params, cookies, headers, json/data body; or exception) == Endpoint.get_kwargs on the endpoint abstracted from the implementation's parse"}
     def _file_list_case(c):
         bodyv = c["vec"].get("body") or []
         return len(bodyv) > 3 and any(isinstance(x, list) and x for x in bodyv[3].values()) and "not JSON serializable" in (c["kw"].get("exc") or {}).get("msg", "")
     bad = {i for i in bad if not (_file_list_case(meta[i][1]) and "multipart_file_list" in run.known)}      # binary values are outside the model (no pv constructor): oracle-only finding
+    run.corr = {"cases": len(terms) + len(pterms), "mismatches": len(bad) + len(pbad), "what": "body_from_data media-type decisions == Parse.body_plan; generated _get_kwargs(**args) (method, url, params, cookies, headers, json/data body; or exception) == Endpoint.get_kwargs on the endpoint abstracted from the implementation's parse"}
     for i in sorted(bad)[:8]:
         di, c = meta[i]
         mv = coq_eval(hdr, f"get_kwargs T{di} 40 {c['cep']} {c['cargs'].replace('O@', f'O{di}').replace('T@', f'T{di}')}")
